@@ -165,6 +165,59 @@ func c19FetchAll(ctx context.Context, fetcher content.Fetcher, desc ocispec.Desc
 	return n.data, nil
 }
 
+// c19Remote: a registry with the referrers API on top of a store - every image manifest whose subject has the
+// asked digest, described with its artifact type and annotations, filtered by artifact type, in pages.
+type c19Remote struct {
+	oras.GraphTarget
+	page int
+}
+
+func (r *c19Remote) Referrers(ctx context.Context, desc ocispec.Descriptor, artifactType string, fn func(referrers []ocispec.Descriptor) error) error {
+	preds, err := r.GraphTarget.Predecessors(ctx, desc)
+	if err != nil {
+		return err
+	}
+	var all []ocispec.Descriptor
+	for _, node := range preds {
+		if node.MediaType != c19ImageMT {
+			continue
+		}
+		data, err := content.FetchAll(ctx, r.GraphTarget, node)
+		if err != nil {
+			return err
+		}
+		var m ocispec.Manifest
+		if err := json.Unmarshal(data, &m); err != nil {
+			return err
+		}
+		if m.Subject == nil || m.Subject.Digest != desc.Digest {
+			continue
+		}
+		node.ArtifactType = m.ArtifactType
+		if node.ArtifactType == "" {
+			node.ArtifactType = m.Config.MediaType
+		}
+		node.Annotations = m.Annotations
+		if artifactType != "" && node.ArtifactType != artifactType {
+			continue
+		}
+		all = append(all, node)
+	}
+	if len(all) == 0 {
+		return fn(nil)
+	}
+	for i := 0; i < len(all); i += r.page {
+		end := i + r.page
+		if end > len(all) {
+			end = len(all)
+		}
+		if err := fn(all[i:end]); err != nil {
+			return err
+		}
+	}
+	return nil
+}
+
 // c19Logging wraps oras' real in-memory store natively so that fetches can be observed there as well.
 type c19Logging struct {
 	*memory.Store
@@ -219,6 +272,12 @@ func VsymC19() {
 			logging.fetched = nil
 		}
 	}
+	// the listing route: a store that only answers Predecessors (OCI layout, memory), or a registry that speaks
+	// the referrers API and delivers the referrers in pages
+	remote := vr.Choice("referrersAPI", 2) == 1
+	if remote {
+		target = &c19Remote{GraphTarget: target, page: []int{1, 2, 100}[vr.Choice("referrersPage", 3)]}
+	}
 	repo := NewRepository(target)
 	// inject stores a hand-built document as a node and returns its descriptor (declared size = actual unless given)
 	inject := func(mediaType string, doc vr.J, refs []digest.Digest, declared int64) ocispec.Descriptor {
@@ -249,7 +308,13 @@ func VsymC19() {
 	// two subjects that agree in some fields
 	subjA := ocispec.Descriptor{MediaType: c19ImageMT, Digest: digest.Digest("sha256:aaaaaaaaaaaaaaaaaaaaaaaaaaaaaaaaaaaaaaaaaaaaaaaaaaaaaaaaaaaaaaaa"), Size: 100}
 	subjB := subjA
-	switch vr.Choice("subjectB", 3) {
+	// a registry's referrers API knows an artifact by its digest alone: descriptors that share a digest and
+	// differ elsewhere are asked of the route that compares whole descriptors
+	subjBKind := 0
+	if !remote {
+		subjBKind = vr.Choice("subjectB", 3)
+	}
+	switch subjBKind {
 	case 0:
 		subjB.Digest = digest.Digest("sha256:bbbbbbbbbbbbbbbbbbbbbbbbbbbbbbbbbbbbbbbbbbbbbbbbbbbbbbbbbbbbbbbb")
 	case 1:
@@ -277,7 +342,11 @@ func VsymC19() {
 	}
 	// one foreign or hostile referrer of subject A
 	cfg := vr.JObj("mediaType", vr.JStr(ArtifactTypeNotation), "digest", vr.JStr(string(ocispec.DescriptorEmptyJSON.Digest)), "size", vr.JNum(2))
-	hostile := vr.Choice("foreignReferrer", 11)
+	hostile := 0
+	if !remote {
+		// what a hostile referrer may look like is asked of the route that reads the manifests itself
+		hostile = vr.Choice("foreignReferrer", 11)
+	}
 	var hostileDesc ocispec.Descriptor
 	hostileListed, hostileFetchable := false, false
 	var hostileBlob ocispec.Descriptor
